@@ -434,7 +434,13 @@ Inductive c19case :=
    unknown length, a Content-Length that is larger / smaller than what is sent), the status it
    answered, what the reader obtained. The rig's SourceToAddress maps every non-empty source. *)
 | CHttpRaw (b : hbody bytes) (status : Z) (delivered : option rpc)
-(* a direct observation that the property requires to hold (code: see lib/props/C19.py) *)
+(* a direct observation that the property requires to hold (code: see lib/props/C19.py).
+   Code 3 is the sender's half of "written without error => read": the model of one GoatOverHttp has the far end
+   as the environment of a Write ([HPostResult w ok]); since /repo 2aacfa6 [ok] reads "the POST was answered 200"
+   (Write returns an error for every other status), and in the model 200 is only ever answered by the delivery
+   rule (log [HEvDeliver q c r; HEvResp q 200; HEvRead r (HROk e)]; [spec_http] checks "answered 200 <=> delivered"
+   on every observed history), so with C19_http_delivery_correct / C19_http_end_to_end: a Write that returned nil
+   was read on the other end as the envelope written. *)
 | CAssert (code : Z) (holds : bool).
 
 Definition check (c : c19case) : list nat :=
